@@ -214,6 +214,10 @@ impl KeyValueStore {
             let (imm, imm_log, imm_path, imm_trigger) = {
                 let mut state = self.state.lock().unwrap();
                 while state.imm_trigger < state.mem_seq_no {
+                    #[cfg(rescrv_blue_verif)]
+                    if crate::verif::single_step() {
+                        return Ok(());
+                    }
                     state = self.cnd_needs_memtable_flush.wait(state).unwrap();
                 }
                 let imm = Arc::clone(&state.mem);
@@ -279,6 +283,26 @@ impl KeyValueStore {
             state.imm_trigger = imm_trigger;
             self.cnd_memtable_rolled_over.notify_all();
         }
+    }
+
+    /// Verification hook: ask for a memtable flush as `write` does when the memtable is full.
+    #[cfg(rescrv_blue_verif)]
+    pub fn verif_request_flush(&self) {
+        let state = self.state.lock().unwrap();
+        drop(self.rollover_memtable(state));
+    }
+
+    /// Verification hook: the tree under this store.
+    #[cfg(rescrv_blue_verif)]
+    pub fn verif_tree(&self) -> &LsmTree {
+        &self.tree
+    }
+
+    /// Verification hook: (seq_no, mem_seq_no, imm_trigger, imm present).
+    #[cfg(rescrv_blue_verif)]
+    pub fn verif_state(&self) -> (u64, u64, u64, bool) {
+        let state = self.state.lock().unwrap();
+        (state.seq_no, state.mem_seq_no, state.imm_trigger, state.imm.is_some())
     }
 
     fn start_new_log(
